@@ -110,6 +110,8 @@ pub struct ExecReport {
     pub digest_mismatch: bool,
     #[serde(default)]
     pub free_attempts_hit: bool,
+    #[serde(default)]
+    pub ext_blocks: u64,
     /// FNV-64 of every distinct program text / file tree this execution compiled
     #[serde(default)]
     pub prog_keys: Vec<u64>,
@@ -330,6 +332,7 @@ fn run_one(plan: &Plan, refs: &mut RefTable, rerun: bool, want_sample: bool) -> 
     rep.switches = out.switches;
     rep.nevents = out.nevents;
     rep.counters = out.counters.clone();
+    rep.ext_blocks = out.ext_blocks;
     let (faults, any_panic) = plan_faults(&plan, &out, refs);
     rep.sentinel_after_panic = any_panic && !plan.sentinel.is_empty();
     rep.nontrivial = rep.calls >= 2 || faults.any();
@@ -475,6 +478,13 @@ pub fn work(gen: &Gen, cfg: &WorkerCfg) {
             }
             let mut rep = run_one(&plan, &mut refs, rerun, want_sample);
             if plan.shuttle && rep.herr.as_deref().is_some_and(|e| e.starts_with("watchdog")) {
+                if let Ok(dir) = std::env::var("VERIF_DUMP_WATCHDOG") {
+                    let _ = std::fs::create_dir_all(&dir);
+                    let _ = std::fs::write(
+                        format!("{dir}/watchdog-{stratum}{i}.json"),
+                        serde_json::to_string_pretty(&plan).unwrap(),
+                    );
+                }
                 watchdogs += 1;
                 plan.shuttle = false;
                 degraded = true;
